@@ -44,6 +44,27 @@ pub fn encode_round<E: MkEngine>(
     }
 }
 
+/// Several encode rounds on ONE object of (kind, E), no reset in between; the recovery shards of the last round.
+pub fn encode_rounds<E: MkEngine>(kind: Kind, k: usize, r: usize, rounds: &[&[Vec<u8>]]) -> Result<Vec<Vec<u8>>, String> {
+    let res = catch_unwind(AssertUnwindSafe(|| -> Result<Vec<Vec<u8>>, String> {
+        let sb = rounds[0].first().map_or(0, Vec::len);
+        let mut e = EncObj::<E>::new(kind, k, r, sb).map_err(|e| util::err_json(&e))?;
+        let mut out = Vec::new();
+        for originals in rounds {
+            for o in *originals {
+                e.add(o).map_err(|e| util::err_json(&e))?;
+            }
+            let res = e.encode().map_err(|e| util::err_json(&e))?;
+            out = res.recovery_iter().map(<[u8]>::to_vec).collect();
+        }
+        Ok(out)
+    }));
+    match res {
+        Ok(x) => x,
+        Err(p) => Err(util::panic_json(&util::panic_message(&*p))),
+    }
+}
+
 /// One decode round on a fresh object.
 pub fn decode_round<E: MkEngine>(
     kind: Option<Kind>,
